@@ -74,11 +74,9 @@ def wf_jobs(prop, tier, rules=None, cell=(2024, 2), lift=True, timeout=None, ext
         elif npod and prop != "C19":
             spec["pods"] = tp          # thorough: 14 table keys; every key of the table: POD-CLOSED (C19), C06 and C04
         variants = [(spec, "")]
-        if name in TS_RULES and prop in ("C01", "C02"):
+        if name in TS_RULES and prop in ("C01", "C02") and not (name == "ruleLatentDOY" and tier == "quick"):
             # rules that read the reference time: more year-month cells (after a leap day, year end)
             variants = [(dict(spec, _cell=c), "/ts%d-%02d" % c) for c in ([(2024, 2), (2024, 3)] if tier == "quick" else [(2024, 2), (2024, 3), (2023, 12)])]
-            if name == "ruleLatentDOY" and tier == "quick":
-                variants = [(dict(v, ts_days="first"), sfx) for v, sfx in variants]   # exact contract over whole months: C04
         if name == "ruleTimeDuration" and prop in ("C15", "C12"):
             spec["maxdur"] = 3          # the frame clause does not depend on the amount
         elif name == "ruleTimeDuration":
